@@ -251,10 +251,12 @@ impl From<std::time::SystemTime> for DateTime {
             }
             Err(error) => {
                 let duration = error.duration();
-                debug_assert!(duration.as_secs() <= i64::MAX as u64);
+                // The earliest representable `SystemTime` lies 2^63 s before the epoch, one second
+                // more than `i64::MAX`: `as i64` then yields `i64::MIN`, whose negation must wrap.
+                debug_assert!(duration.as_secs() <= i64::MAX as u64 + 1);
                 let (secs, nanos) = (duration.as_secs() as i64, duration.subsec_nanos());
                 if nanos == 0 {
-                    (-secs, 0)
+                    (secs.wrapping_neg(), 0)
                 } else {
                     (-secs - 1, 1_000_000_000 - nanos)
                 }
